@@ -1,6 +1,6 @@
 (* C09 -- harness entry points (definitions only; depends on the model, the
    reference semantics and the sanity_check model, on no proof file). *)
-From PyRTL Require Import Pass.Lower Netlist.SpecHarness Netlist.Sanity.
+From PyRTL Require Import Pass.Lower Pass.LowerHyps Netlist.SpecHarness Netlist.Sanity.
 
 Definition kind_code (k : kind) : list Z :=
   match k with
@@ -63,9 +63,16 @@ Definition c09_case (ps : list Z) (nl : netlist) (dflt : Z) (regmap : list (Z * 
   :: map enc_wire (wires nl') ++ map enc_net (nets nl')
   ++ ref_case nl' dflt regmap memmap inss probes.
 
-(* first element: [sanity_block nl] :: spec_case of the ORIGINAL design *)
+(* the decidable hypotheses of the Props/C09.v theorems, evaluated on the ORIGINAL design:
+   [sanity_block; lower_okb (rule-based passes, any ordering); unique names (fan-out
+   bound); dco_okb (direct_connect_outputs preserves); fanout_okb (two_way_fanout preserves)] *)
+Definition c09_hyps (nl : netlist) : list Z :=
+  [b2z (sanity_block nl); b2z (lower_okb nl); b2z (nodupb (map wname (wires nl)));
+   b2z (dco_okb nl); b2z (fanout_okb (fresh nl) nl)].
+
+(* first element: c09_hyps nl :: spec_case of the ORIGINAL design *)
 Definition c09_multi (pss : list (list Z)) (nl : netlist) (dflt : Z) (regmap : list (Z * Z))
     (memmap : list (Z * list (Z * Z))) (inss : list (list (Z * Z)))
     (probes : list (Z * Z)) : list (list (list Z)) :=
-  ([b2z (sanity_block nl)] :: spec_case nl dflt regmap memmap inss probes)
+  (c09_hyps nl :: spec_case nl dflt regmap memmap inss probes)
   :: map (fun ps => c09_case ps nl dflt regmap memmap inss probes) pss.
